@@ -231,6 +231,37 @@ def rule_buckets(chk, prog):
     (r.bad if bad else r.ok)("severNodes", f3.where(), bad or "")
 
 
+def rule_buckets_in_range(chk, prog):
+    from ..microai.interp import Interp, MapVal, Oracle, Unsupported, AssertFail, default_obj
+    r = chk.rule("BUCKETS-IN-RANGE", "the NodeBuckets constructor followed by takeLeaves (the first thing peel does), interpreted on graphs whose "
+                 "largest degree is 0 (a single node -- a connected graph), 1 (one edge) and 2 (a path): takeLeaves stays inside the bucket "
+                 "vector the constructor sized, returns exactly the degree-1 nodes and leaves the other buckets alone", floor=3)
+    ctor = [f for f in prog.fns("dialect::NodeBuckets::NodeBuckets") if f.body]
+    if len(ctor) != 1:
+        raise AnalysisBroken("NodeBuckets constructor not found")
+    take = prog.fn("dialect::NodeBuckets::takeLeaves")
+    for name, degs in (("a single node", [0]), ("two nodes, one edge", [1, 1]), ("a path of three nodes", [1, 2, 1])):
+        r.count()
+        nodes = {10 + i: default_obj(prog, "dialect::Node", {"m_ID": 10 + i, "m_degree": d}) for i, d in enumerate(degs)}
+        G = default_obj(prog, "dialect::Graph", {"m_nodes": MapVal(dict(nodes)), "m_maxDeg": max(degs)})
+        this = default_obj(prog, "dialect::NodeBuckets", {})
+        it = Interp(prog, Oracle([]), max_steps=200000)
+        bad = None
+        try:
+            it.call(ctor[0], this, None, None, arg_values=[G])
+            where = "takeLeaves"
+            rv = it.call(take, this, None, None, arg_values=[])
+            got = sorted(rv.d.keys()) if hasattr(rv, "d") else sorted(rv.items.keys())
+            want = sorted(k for k, n_ in nodes.items() if n_.f["m_degree"] == 1)
+            if got != want:
+                bad = "takeLeaves returns the nodes %s, the nodes of degree 1 are %s" % (got, want)
+        except Unsupported as e:
+            raise AnalysisBroken("NodeBuckets outside the interpreter subset: %s" % e)
+        except AssertFail as e:
+            bad = "with the buckets the constructor made for this graph: %s" % e
+        (r.bad if bad else r.ok)("NodeBuckets for %s" % name, take.where(), bad or "")
+
+
 def rule_components(chk, prog):
     r = chk.rule("COMPONENTS", "Graph::getConnComps (see module doc)", floor=4)
     fn = prog.fn("dialect::Graph::getConnComps")
@@ -697,6 +728,7 @@ def run(chk):
     chk.guard(rule_peel, chk, prog)
     chk.guard(rule_stems, chk, prog)
     chk.guard(rule_buckets, chk, prog)
+    chk.guard(rule_buckets_in_range, chk, prog)
     chk.guard(rule_components, chk, prog)
     chk.guard(rule_node_groups, chk, prog)
     chk.guard(rule_crossings, chk, prog)
